@@ -318,6 +318,13 @@ fn paused_check(c: &PausedCase, st: &mut Stats) -> CheckResult {
             ]);
         }
     }
+    // directed registration race: while a registration (or a rename) is held, another person registers the same name
+    if let (Some(tp), Step::Register { u, .. } | Step::Update { u, .. }) = (c.takeover, &c.victim) {
+        let tp = if tp as usize % 3 == vp { (tp + 1) % 3 } else { tp % 3 };
+        if matches!(c.victim, Step::Register { .. }) || c.intruder.len() % 2 == 0 {
+            intruder_steps.extend([Step::Register { p: tp, u: *u, w: 0 }, Step::Login { p: tp, u: *u, w: 0 }, Step::Add { p: tp, name: 2, hybrid: false }]);
+        }
+    }
     intruder_steps.extend(c.intruder.iter().cloned());
     for s in &intruder_steps {
         let mut p = s.person() % 3;
@@ -372,6 +379,41 @@ fn paused_check(c: &PausedCase, st: &mut Stats) -> CheckResult {
     if let Err(e) = db_invariants(&o, srv, &after) {
         return classify(e);
     }
+    // credentials: with its own (person-specific) passwords a person gets into exactly the pool accounts it controls
+    let probe_names: Vec<u8> = match &c.victim {
+        Step::Register { u, .. } | Step::Update { u, .. } => vec![*u],
+        _ => Vec::new(),
+    };
+    for p in 0..3 {
+        for &u in &probe_names {
+            let un = o.uname(u);
+            let mut works = false;
+            for w in 0u8..2 {
+                let mut scratch = Jar::default();
+                let r = cl.json(&mut scratch, "POST", "/users/login", &json!({"username": un, "password": o.pw(p, w)}))?;
+                if ok(&r) {
+                    works = true;
+                    let _ = cl.delete(&mut scratch, "/users/logout");
+                }
+            }
+            if works && !o.controls[p].contains(&un) {
+                return classify(format!("{after}: person {p} can log into account {un:?} with its own password although every request by which it could have obtained the account was refused or undone (controlled by {:?})",
+                    (0..3).filter(|q| o.controls[*q].contains(&un)).collect::<Vec<_>>()));
+            }
+            let exists = srv.stub.snapshot("adf-obdd.users").iter().any(|d| d.get_str("username") == Ok(un.as_str()));
+            let sole = (0..3).filter(|q| o.controls[*q].contains(&un)).count() == 1;
+            if !works && exists && sole && o.controls[p].contains(&un) && !k4_config {
+                // (an account set up with the empty password is not probed)
+                let empty_pw_possible = c.setup.iter().chain(intruder_steps.iter()).chain(std::iter::once(&c.victim)).any(|s| match s {
+                    Step::Register { w, .. } | Step::Update { w, .. } => w % 4 == 3,
+                    _ => false,
+                });
+                if !empty_pw_possible {
+                    return Err(format!("{after}: person {p} was told it owns account {un:?} (and nobody else was) but none of its passwords is accepted"));
+                }
+            }
+        }
+    }
     st.count("paused_requests", paused as u64);
     if paused {
         st.label(&format!("paused:{}", match c.victim {
@@ -392,14 +434,14 @@ fn paused_check(c: &PausedCase, st: &mut Stats) -> CheckResult {
 pub fn paused_part(tier: Tier) -> Box<dyn DynPart> {
     Part::with_shrink(
         "paused",
-        tier.pick(300, 4000),
+        tier.pick(400, 4000),
         60,
         || {
             let victim = prop_oneof![
                 4 => (0u8..3, 0u8..3, 0u8..2).prop_map(|(p, u, w)| Step::Update { p, u, w }),
                 2 => (0u8..3).prop_map(|p| Step::DeleteAccount { p }),
                 2 => (0u8..3, 0u8..4, any::<bool>()).prop_map(|(p, name, hybrid)| Step::Add { p, name, hybrid }),
-                1 => (0u8..3, 0u8..3, 0u8..2).prop_map(|(p, u, w)| Step::Register { p, u, w }),
+                3 => (0u8..3, 0u8..3, 0u8..2).prop_map(|(p, u, w)| Step::Register { p, u, w }),
                 1 => (0u8..3, 0u8..3).prop_map(|(p, name)| Step::DeleteProblem { p, name }),
             ];
             (
